@@ -244,7 +244,8 @@ where
     Ok(())
 }
 
-/// `__typename` is the tag of the generated enums, so it has to arrive under its own name.
+/// `__typename` is the tag of the generated enums, so it has to arrive under its own name, and it
+/// is a scalar.
 fn validate_typename_field<'doc, T>(
     field: &graphql_parser::query::Field<'doc, T>,
 ) -> Result<(), QueryValidationError>
@@ -256,6 +257,12 @@ where
             "`__typename` cannot be aliased (`{}: __typename`).",
             alias.as_ref()
         )));
+    }
+
+    if !field.selection_set.items.is_empty() {
+        return Err(QueryValidationError::new(
+            "`__typename` is a scalar and cannot have a selection set.".to_owned(),
+        ));
     }
 
     Ok(())
